@@ -1,5 +1,7 @@
 package util
 
+import "strings"
+
 //
 // Rune range helper functions
 //
@@ -53,4 +55,12 @@ func IsIdent(test string) bool {
 	}
 
 	return true
+}
+
+var stringEscaper = strings.NewReplacer("\\", "\\\\", "\"", "\\\"", "\n", "\\n", "\r", "\\r", "\t", "\\t")
+
+// Renders the content of a string so that it can be placed between double quotes in source code
+// (the inverse of the lexer's escape sequence handling).
+func EscapeString(input string) string {
+	return stringEscaper.Replace(input)
 }
